@@ -265,6 +265,9 @@ def run(tier, r):
              "instances": 0, "distinct_points": 0, "history_lengths": []}
     nontrivial = 0
     for hno in range(max_hist):
+        if oc.common.past_oracle_cap() or len(violations) >= 60:
+            stats["stopped_early"] = "deep-search time cap or enough violations"
+            break
         hseed = r.getrandbits(48)
         nops = r.randint(60, 200) if tier == "quick" else r.randint(100, 600)
         viol, info = run_history(hseed, nops, grish_all)
